@@ -760,7 +760,7 @@ class C09:
             "throws) x a decision tape that chooses at run time every transfer (target, argument count 0/1/2, value), "
             "abandon-and-replace of fibers, has_finished probes and illegal transfers; each case runs in checked and "
             "release builds (and a slice under hooks: collect-always + quarantine). non-trivial = at least 2 successful "
-            "transfers; distinct = distinct hash of the (from, to, kind) transfer sequence")
+            "transfers; distinct = distinct hash of the (from, to, kind) transfer sequence 1/100 of the cases also run on the optimised build collecting at every allocation under valgrind memcheck.")
     COMPONENTS = {"real": ["yarel compiler", "VM fiber machinery (load_fiber, unload_fiber, return_impl, fiber natives)",
                            "closures/upvalues across fibers", "per-fiber exception handler stacks", "collector (native pacing; hook slice: every allocation, quarantine)"],
                   "stub": ["scheduler: every transfer decision comes from the simulator's tape through the printer seam",
